@@ -22,6 +22,7 @@ import (
 	"encoding/base64"
 	"fmt"
 	"io"
+	"math"
 
 	"encoding/xml"
 
@@ -453,7 +454,14 @@ func maybeDeflate(data []byte, maxSize int64, decoder func([]byte) error) error 
 		maxSize = defaultMaxDecompressedResponseSize
 	}
 
-	lr := io.LimitReader(flate.NewReader(bytes.NewReader(data)), maxSize+1)
+	// Read one byte more than the limit, so that exceeding it can be detected;
+	// a limit of math.MaxInt64 cannot be exceeded and must not overflow.
+	readLimit := maxSize
+	if readLimit < math.MaxInt64 {
+		readLimit++
+	}
+
+	lr := io.LimitReader(flate.NewReader(bytes.NewReader(data)), readLimit)
 
 	deflated, err := io.ReadAll(lr)
 	if err != nil {
